@@ -1,12 +1,12 @@
 /* C18 replay: carquet_writer_close on a sink that accepts fwrite() into the stdio buffer and then
  * fails (ENOSPC) when the bytes are pushed out by fflush()/fclose().  Real /repo sources.
- * Input: owns = 1 -> path-based writer (writer owns the FILE, fclose result matters),
- *        owns = 0 -> carquet_writer_create_file on the caller's FILE (fflush result matters). */
+ * No input needed (the counterexample is "fflush/fclose report failure"); both writer flavours
+ * are exercised:  owns = 1 -> path-based writer (the writer owns the FILE: fclose result matters),
+ *                 owns = 0 -> carquet_writer_create_file on the caller's FILE (fflush result matters). */
 #include "cex.h"
 #include <carquet/carquet.h>
 #include <stdio.h>
-CEX_MAIN {
-  CEX_U64(owns);
+static int run(int owns) {
   const char *path = "/dev/full";
   carquet_error_t err; memset(&err, 0, sizeof err);
   carquet_schema_t *schema = carquet_schema_create(&err);
@@ -23,8 +23,13 @@ CEX_MAIN {
   carquet_status_t s1 = carquet_writer_write_batch(w, 0, v, 16, NULL, NULL);
   carquet_status_t s2 = carquet_writer_close(w);
   int rc = f ? fclose(f) : 0;
-  fprintf(stderr, "sink=%s owns=%d write_batch=%d close=%d caller_fclose=%d\n", path, (int)owns, (int)s1, (int)s2, rc);
+  fprintf(stderr, "sink=%s owns=%d write_batch=%d close=%d caller_fclose=%d\n", path, owns, (int)s1, (int)s2, rc);
   carquet_schema_free(schema);
-  CEX_CHECK(!(s1 == CARQUET_OK && s2 == CARQUET_OK),
-            "every writer call returned CARQUET_OK although the sink rejected the data (fflush/fclose failed with ENOSPC)");
+  return s1 == CARQUET_OK && s2 == CARQUET_OK;
+}
+CEX_MAIN {
+  int bad_owned = run(1);
+  int bad_unowned = run(0);
+  CEX_CHECK(!bad_owned, "path-based writer: every call returned CARQUET_OK although fclose() failed with ENOSPC (no byte stored)");
+  CEX_CHECK(!bad_unowned, "FILE-based writer: every call returned CARQUET_OK although fflush() failed with ENOSPC (no byte stored)");
 }
